@@ -15,6 +15,10 @@ class EmitError(Exception):
     pass
 
 
+class ConfigRefused(EmitError):
+    """the constructor (or the emitter) itself refuses this configuration: not a legal configuration of the block"""
+
+
 class Emitter:
     def __init__(self, facts, cinfo, cfg, objname='obj', clkname='clk', ports=None):
         self.facts = facts
